@@ -103,6 +103,13 @@ CHECKS['C15'] = ('compositions of <=3 (quick) / <=4 (thorough) terms over 18 con
                  'trip and mass against the frozen table; every element and two isotopes of the table; additivity over all '
                  'ordered pairs of ~60 written formulas; glycans: all names/synonyms, ordered pairs/triples of 12 prefix-'
                  'confusable names x counts with an own all-tokenizations enumerator', 'DESIGN.md section 4 / C15')
+CHECKS['C08'] = ('operation-sequence exploration on live shared objects: ~117 call labels (public functions and non-inplace '
+                 'annotation methods taking an annotation/dict/list) x 3 annotation shapes; every history of length 1 and '
+                 'every ordered pair (quick), plus every triple whose first two calls are among 24 argument-touching labels '
+                 '(thorough); world rebuilt and prefix replayed per history, no state merging; per node: argument snapshot, '
+                 'result == result on a fresh world, global RNG; per history: deep mutation of the last result must not '
+                 'reach the arguments or later results; process-wide digest of DBs/constant tables per shard',
+                 'DESIGN.md section 4 / C08')
 NOT_APPLICABLE = {}
 
 
